@@ -300,16 +300,27 @@ func genHistory(rt *rapid.T, cfg *opConfig, maxLen int) []*Op {
 			}
 		}
 		ops = append(ops, op)
+		if cfg.mb && rapid.IntRange(0, 19).Draw(rt, "dance") == 7 {
+			// pre-redacted text that ends in the first bytes of a marker, mode
+			// switches with nothing written in between, then the bytes that
+			// would complete the marker. (Such tails appear only here, directly
+			// followed by a switch out of the raw mode: raw writes back to back -
+			// a Print after it included - are one raw text, which the caller
+			// keeps well-formed.)
+			a, b := rapid.IntRange(0, 2).Draw(rt, "dm1"), rapid.IntRange(0, 1).Draw(rt, "dm2")
+			cont := [][]byte{{0x80, 0xBA, 'x'}, {0x80, 0xB9}, {0xBA}, {0xB9, 'y'}}[rapid.IntRange(0, 3).Draw(rt, "dcont")]
+			tail := []string{"ab\xe2", "a\xe2\x80"}[rapid.IntRange(0, 1).Draw(rt, "dtail")]
+			ops = append(ops, &Op{K: "MBSetMode", I: 2}, &Op{K: "MBWriteString", S: B(tail)}, &Op{K: "MBSetMode", I: int64(a)}, &Op{K: "MBSetMode", I: int64(b)},
+				&Op{K: "MBWrite", S: cont})
+			mode = b
+		}
 	}
 	return ops
 }
 
 // fragments: well-formed redactable pieces as the library produces them.
 var fragments = []string{
-	// (well-formed: no marker; they end in a piece of one. No fragment starts
-	// with continuation bytes: two raw writes back to back are one raw text,
-	// which the caller keeps well-formed)
-	"ab\xe2", "a\xe2\x80",
+
 	"", "safe", startS + "u" + endS, "a " + startS + "u" + endS + " b", startS + "x" + endS + "\n" + startS + "y" + endS,
 	"?", startS + "?" + endS, "\n", startS + "×" + endS, startS + "u" + endS + startS + "v" + endS, "é" + startS + "世" + endS,
 }
